@@ -55,6 +55,7 @@ struct ref_t
 {
     bool   has_f{false};
     bool   has_x{false};
+    bool   f_is_f_of_xstar{false}; ///< f* is by definition the objective at xstar (KKT construction): no separate value
     double fstar{0};
     evec_t xstar;
 };
@@ -196,7 +197,8 @@ uint64_t hash_prog(const prog_t& P)
 /// \brief the clauses of the statement that apply to a `converged` result; returns true if converged.
 ///     `tag` names the object (kind of program / restatement) in the violation keys.
 ///
-bool judge(vf::ctx_t& c, const prog_t& P, const solver_state_t& state, const ref_t& ref, const std::string& tag)
+bool judge(vf::ctx_t& c, const prog_t& P, const solver_state_t& state, const ref_t& ref, const std::string& object,
+           const evec_t* x0 = nullptr)
 {
     c.count("solves");
     c.count(std::string("status:") + status_name(state.m_status));
@@ -210,7 +212,11 @@ bool judge(vf::ctx_t& c, const prog_t& P, const solver_state_t& state, const ref
     const auto witness = [&](const char* clause, double got, double allowed)
     {
         vf::json_t j;
-        j.kv("clause", clause).kv("object", tag).kv("got", got).kv("allowed", allowed);
+        j.kv("clause", clause).kv("object", object).kv("got", got).kv("allowed", allowed);
+        if (x0 != nullptr)
+        {
+            j.arr("user_x0", x0->data(), static_cast<size_t>(x0->size()));
+        }
         j.kv("fx_reported", state.m_fx).kv("iters", state.m_iters);
         j.vec("x", state.m_x).vec("u", state.m_u).vec("v", state.m_v);
         if (ref.has_f)
@@ -227,86 +233,195 @@ bool judge(vf::ctx_t& c, const prog_t& P, const solver_state_t& state, const ref
 
     if (state.m_x.size() != n)
     {
-        c.violation("C04|solution-size|" + tag, witness("size", static_cast<double>(state.m_x.size()), n));
+        c.violation("C04|solution-size|" + object, witness("size", static_cast<double>(state.m_x.size()), n));
         return true;
     }
     const evec_t x = state.m_x.vector();
+    if (!x.allFinite())
+    {
+        c.violation("C04|non-finite-solution|" + object, witness("finite", std::nan(""), 0.0));
+        return true;
+    }
+    // input class of the key: a `converged` point at |x|_inf >= 1e8 (the programs have magnitudes <= 1e2..1e4) has left
+    // the range where the solver's own 1e-10 residual tests can be resolved in double precision
+    const bool        astronomic = x.cwiseAbs().maxCoeff() >= 1e8;
+    const std::string tag        = object + (astronomic ? "|astronomic-x" : "");
+    if (astronomic)
+    {
+        c.count("converged_astronomic_x");
+    }
+
+    // All residuals are evaluated in long double together with a rigorous bound on their own rounding error (the solver
+    // sometimes returns |x| ~ 1e12 along null-space directions of non-unique optima, where a double evaluation of A x - b
+    // is pure noise): a clause is violated only if it fails by more than that bound, and counted as undecided if the
+    // tolerance of the statement lies inside the error interval.
+    using ld          = long double;
+    const ld   ulp    = std::ldexp(1.0L, -63);
+    const auto dot_ld = [&](const auto& row, const evec_t& y, ld& mags)
+    {
+        ld sum = 0.0L;
+        for (Eigen::Index j = 0; j < y.size(); ++j)
+        {
+            const ld t = static_cast<ld>(row(j)) * static_cast<ld>(y(j));
+            sum += t;
+            mags += std::fabs(t);
+        }
+        return sum;
+    };
+    // returns -1 violated for sure, 0 undecided, +1 satisfied for sure
+    const auto decide = [](const ld dev, const ld err, const ld tol) { return (dev - err > tol) ? -1 : ((dev + err <= tol) ? 1 : 0); };
 
     // (1) equalities within 1e-6 (1 + |b|_inf)
     if (p > 0)
     {
         c.count("clause_equality");
-        const double dev = (P.A * x - P.b).cwiseAbs().maxCoeff();
-        const double tol = 1e-6 * (1.0 + P.b.cwiseAbs().maxCoeff());
-        c.maxc("equality_dev_over_tol_ppm", static_cast<int64_t>(std::min(1e12, 1e6 * dev / tol)));
-        if (!(dev <= tol))
+        const ld tol   = 1e-6L * (1.0L + static_cast<ld>(P.b.cwiseAbs().maxCoeff()));
+        int      worst = 1;
+        ld       wdev = 0.0L, werr = 0.0L;
+        for (int i = 0; i < p; ++i)
         {
-            c.violation("C04|equality-violated|" + tag, witness("equality", dev, tol));
+            ld       mags = std::fabs(static_cast<ld>(P.b(i)));
+            const ld dev  = std::fabs(dot_ld(P.A.row(i), x, mags) - static_cast<ld>(P.b(i)));
+            const ld err  = static_cast<ld>(n + 2) * ulp * mags;
+            const int d   = std::isfinite(static_cast<double>(dev)) ? decide(dev, err, tol) : -1;
+            if (d < worst || (d == worst && dev > wdev))
+            {
+                worst = d;
+                wdev  = dev;
+                werr  = err;
+            }
+        }
+        c.maxc("equality_dev_over_tol_ppm", static_cast<int64_t>(std::min(1e12L, 1e6L * wdev / tol)));
+        if (worst < 0)
+        {
+            auto j = witness("equality", static_cast<double>(wdev), static_cast<double>(tol));
+            j.kv("evaluation_error_bound", static_cast<double>(werr));
+            c.violation("C04|equality-violated|" + tag, j);
+        }
+        else if (worst == 0)
+        {
+            c.count("clause_equality_undecided");
         }
     }
     // (2) inequalities within 1e-6 (1 + |h|_inf)
     if (m > 0)
     {
         c.count("clause_inequality");
-        const double dev = (P.G * x - P.h).maxCoeff();
-        const double tol = 1e-6 * (1.0 + P.h.cwiseAbs().maxCoeff());
-        c.maxc("inequality_dev_over_tol_ppm", static_cast<int64_t>(std::min(1e12, 1e6 * std::max(0.0, dev) / tol)));
-        if (!(dev <= tol))
+        const ld tol   = 1e-6L * (1.0L + static_cast<ld>(P.h.cwiseAbs().maxCoeff()));
+        int      worst = 1;
+        ld       wdev = 0.0L, werr = 0.0L;
+        for (int i = 0; i < m; ++i)
         {
-            c.violation("C04|inequality-violated|" + tag, witness("inequality", dev, tol));
+            ld       mags = std::fabs(static_cast<ld>(P.h(i)));
+            const ld dev  = dot_ld(P.G.row(i), x, mags) - static_cast<ld>(P.h(i));
+            const ld err  = static_cast<ld>(n + 2) * ulp * mags;
+            const int d   = std::isfinite(static_cast<double>(dev)) ? decide(dev, err, tol) : -1;
+            if (d < worst || (d == worst && dev > wdev))
+            {
+                worst = d;
+                wdev  = dev;
+                werr  = err;
+            }
+        }
+        c.maxc("inequality_dev_over_tol_ppm", static_cast<int64_t>(std::min(1e12L, 1e6L * std::max(0.0L, wdev) / tol)));
+        if (worst < 0)
+        {
+            auto j = witness("inequality", static_cast<double>(wdev), static_cast<double>(tol));
+            j.kv("evaluation_error_bound", static_cast<double>(werr));
+            c.violation("C04|inequality-violated|" + tag, j);
+        }
+        else if (worst == 0)
+        {
+            c.count("clause_inequality_undecided");
         }
     }
-    // (3) reported objective agrees with the objective at x within 1e-6 of the magnitude of its terms
-    //     (evaluated in long double; plus the rounding error no double evaluation of f(x) can avoid when the products
-    //     Q_ij x_i x_j cancel: (n+2) eps (1/2 |x|'|Q||x| + |c|'|x|), which matters only for |x| ~ 1e5 and beyond)
+    // (3) reported objective agrees with the objective at x within 1e-6 of the magnitude of its terms.
+    //     f(x) is evaluated in long double; the tolerance is 1e-6 (|1/2 x'Qx| + |c'x| + 1) plus the rounding error that no
+    //     double evaluation of f(x) can avoid when the products Q_ij x_i x_j, c_i x_i cancel:
+    //     8 (n+2) eps (1/2 |x|'|Q||x| + |c|'|x|), which matters only for |x| ~ 1e5 and beyond.
     {
         c.count("clause_objective");
-        using lvec_t           = Eigen::Matrix<long double, Eigen::Dynamic, 1>;
-        const lvec_t      lx   = x.cast<long double>();
-        const long double quad = P.qp ? 0.5L * lx.dot(P.Q.cast<long double>() * lx) : 0.0L;
-        const long double lin  = P.c.cast<long double>().dot(lx);
-        const double      mags = (P.qp ? 0.5 * x.cwiseAbs().dot(P.Q.cwiseAbs() * x.cwiseAbs()) : 0.0) + P.c.cwiseAbs().dot(x.cwiseAbs());
-        const double      tol  = 1e-6 * static_cast<double>(std::fabs(quad) + std::fabs(lin) + 1.0L) +
-                           8.0 * (n + 2) * std::numeric_limits<double>::epsilon() * mags;
-        const double dev = static_cast<double>(std::fabs(static_cast<long double>(state.m_fx) - (quad + lin)));
-        c.maxc("objective_dev_over_tol_ppm", static_cast<int64_t>(std::min(1e12, 1e6 * dev / tol)));
+        ld mags = 0.0L, quad = 0.0L;
+        const ld lin = dot_ld(P.c, x, mags);
+        if (P.qp)
+        {
+            for (int i = 0; i < n; ++i)
+            {
+                ld       rm = 0.0L;
+                const ld qx = dot_ld(P.Q.row(i), x, rm);
+                quad += 0.5L * static_cast<ld>(x(i)) * qx;
+                mags += 0.5L * std::fabs(static_cast<ld>(x(i))) * rm;
+            }
+        }
+        const ld tol = 1e-6L * (std::fabs(quad) + std::fabs(lin) + 1.0L) +
+                       8.0L * static_cast<ld>(n + 2) * static_cast<ld>(std::numeric_limits<double>::epsilon()) * mags;
+        const ld dev = std::fabs(static_cast<ld>(state.m_fx) - (quad + lin));
+        c.maxc("objective_dev_over_tol_ppm", static_cast<int64_t>(std::min(1e12L, 1e6L * dev / tol)));
         if (!(dev <= tol))
         {
-            c.violation("C04|reported-objective|" + tag, witness("reported-objective", dev, tol));
+            c.violation("C04|reported-objective|" + tag, witness("reported-objective", static_cast<double>(dev), static_cast<double>(tol)));
         }
     }
     // (4) optimality gap against the independently known optimum
     if (ref.has_f && ref.has_x)
     {
         c.count("clause_optimality");
-        // f(x) - f(x*) = grad f(x*).(x - x*) + 1/2 (x - x*)'Q(x - x*), in long double: no cancellation of large values
-        using lvec_t       = Eigen::Matrix<long double, Eigen::Dynamic, 1>;
-        using lmat_t       = Eigen::Matrix<long double, Eigen::Dynamic, Eigen::Dynamic>;
-        const lvec_t lx    = x.cast<long double>();
-        const lvec_t ls    = ref.xstar.cast<long double>();
-        const lvec_t ld    = lx - ls;
-        const lvec_t lc    = P.c.cast<long double>();
-        long double  delta = lc.dot(ld);
+        // f(x) - f(x*) = (c + Q x*).(x - x*) + 1/2 (x - x*)'Q(x - x*): no cancellation of the large values f(x), f(x*)
+        evec_t d(n);
+        ld     mags = 0.0L;
+        for (int i = 0; i < n; ++i)
+        {
+            d(i) = static_cast<double>(static_cast<ld>(x(i)) - static_cast<ld>(ref.xstar(i)));
+            // rounding of d(i) to double: relative 2^-53 of d(i), folded into the error bound below
+        }
+        ld delta = dot_ld(P.c, d, mags);
         if (P.qp)
         {
-            const lmat_t lQ = P.Q.cast<long double>();
-            delta += (lQ * ls).dot(ld) + 0.5L * ld.dot(lQ * ld);
+            for (int i = 0; i < n; ++i)
+            {
+                ld       rm1 = 0.0L, rm2 = 0.0L;
+                const ld qs  = dot_ld(P.Q.row(i), ref.xstar, rm1);
+                const ld qd  = dot_ld(P.Q.row(i), d, rm2);
+                delta += static_cast<ld>(d(i)) * (qs + 0.5L * qd);
+                mags += std::fabs(static_cast<ld>(d(i))) * (rm1 + 0.5L * rm2);
+            }
         }
-        // f* may differ from f(x*) in double by rounding only (exact oracle of the integer mode)
-        long double fxs = lc.dot(ls);
-        if (P.qp)
+        // rounding of d to double contributes at most 2^-52 |grad-like terms| |d| <= 2^-52 mags
+        ld err = static_cast<ld>(n + 3) * static_cast<ld>(n + 3) * ulp * mags + std::ldexp(1.0L, -52) * mags;
+        if (!ref.f_is_f_of_xstar)
         {
-            fxs += 0.5L * ls.dot(P.Q.cast<long double>() * ls);
+            // exact f* (integer mode): add f(x*_double) - f*, evaluated the same way
+            ld fm  = 0.0L;
+            ld fxs = dot_ld(P.c, ref.xstar, fm);
+            if (P.qp)
+            {
+                for (int i = 0; i < n; ++i)
+                {
+                    ld       rm = 0.0L;
+                    const ld qs = dot_ld(P.Q.row(i), ref.xstar, rm);
+                    fxs += 0.5L * static_cast<ld>(ref.xstar(i)) * qs;
+                    fm += 0.5L * std::fabs(static_cast<ld>(ref.xstar(i))) * rm;
+                }
+            }
+            delta += fxs - static_cast<ld>(ref.fstar);
+            err += static_cast<ld>(n + 3) * static_cast<ld>(n + 3) * ulp * fm + std::ldexp(1.0L, -52) * std::fabs(static_cast<ld>(ref.fstar));
         }
-        const double gap   = static_cast<double>(std::fabs(delta + (fxs - static_cast<long double>(ref.fstar))));
+        const ld     gap   = std::fabs(delta);
         const double M     = std::max({1e-3, P.qp ? P.Q.norm() : 0.0, P.c.norm()});
         const double u1    = state.m_u.size() > 0 ? state.m_u.vector().cwiseAbs().sum() : 0.0;
         const double v1    = state.m_v.size() > 0 ? state.m_v.vector().cwiseAbs().sum() : 0.0;
         const double bound = 1e-8 * M * (1.0 + (x - ref.xstar).norm() + u1 + v1);
-        c.maxc("optimality_gap_over_bound_ppm", static_cast<int64_t>(std::min(1e12, 1e6 * gap / bound)));
-        if (!(gap <= bound))
+        c.maxc("optimality_gap_over_bound_ppm", static_cast<int64_t>(std::min(1e12L, 1e6L * gap / static_cast<ld>(bound))));
+        const int verdict = (std::isfinite(static_cast<double>(gap)) && std::isfinite(bound)) ? decide(gap, err, static_cast<ld>(bound)) : -1;
+        if (verdict < 0)
         {
-            c.violation("C04|optimality-gap|" + tag, witness("optimality-gap", gap, bound));
+            auto j = witness("optimality-gap", static_cast<double>(gap), bound);
+            j.kv("evaluation_error_bound", static_cast<double>(err));
+            c.violation("C04|optimality-gap|" + tag, j);
+        }
+        else if (verdict == 0)
+        {
+            c.count("clause_optimality_undecided");
         }
     }
     return true;
@@ -717,6 +832,7 @@ void case_kkt(vf::ctx_t& c)
     P.c = -(P.Q * xs + P.A.transpose() * v + P.G.transpose() * u);
     ref_t ref;
     ref.has_f = ref.has_x = true;
+    ref.f_is_f_of_xstar   = true;
     ref.xstar             = xs;
     ref.fstar             = 0.5 * xs.dot(P.Q * xs) + P.c.dot(xs);
 
@@ -733,7 +849,7 @@ void case_kkt(vf::ctx_t& c)
 
     const std::string base = qp ? "qp" : "lp";
     const auto        st   = solve(P, x0.size() == n ? &x0 : nullptr, rng.next());
-    const bool        conv = judge(c, P, st, ref, base);
+    const bool        conv = judge(c, P, st, ref, base, x0.size() == n ? &x0 : nullptr);
     c.count(box ? "stated_with_bounds" : "stated_generic");
     c.count(x0.size() == n ? "solves_user_x0" : "solves_default_x0");
     if (conv)
@@ -767,7 +883,7 @@ void case_kkt(vf::ctx_t& c)
         const bool user = R.x0.size() == n && (R.P.G * R.x0 - R.P.h).maxCoeff() < 0.0;
         const auto rs   = solve(R.P, user ? &R.x0 : nullptr, rng.next());
         c.count("restated_solves");
-        if (judge(c, R.P, rs, R.ref, base + "-restated:" + R.name))
+        if (judge(c, R.P, rs, R.ref, base + "-restated:" + R.name, user ? &R.x0 : nullptr))
         {
             c.count("restated_converged");
             c.count("restated_converged:" + R.name);
@@ -1105,7 +1221,14 @@ void case_status(vf::ctx_t& c)
             vf::json_t j;
             j.kv("truth", what).kv("object", tag).kv("fx_reported", st.m_fx).kv("iters", st.m_iters).kv("user_x0", user);
             j.vec("x", st.m_x).kv("program", describe(prog));
-            c.violation(std::string("C04|converged-on-") + (kind <= 3 ? "infeasible" : "unbounded") + "|" + tag, j);
+            if (user)
+            {
+                j.arr("x0", ux0.data(), static_cast<size_t>(ux0.size()));
+            }
+            const bool astronomic = st.m_x.size() > 0 && !(st.m_x.vector().cwiseAbs().maxCoeff() < 1e8);
+            c.violation(std::string("C04|converged-on-") + (kind <= 3 ? "infeasible" : "unbounded") + "|" + tag +
+                            (astronomic ? "|astronomic-x" : ""),
+                        j);
         }
         return st;
     };
@@ -1981,7 +2104,7 @@ void case_integer(vf::ctx_t& c)
     }
 
     const auto st   = solve(P, x0.size() == I.n ? &x0 : nullptr, rng.next());
-    const bool conv = judge(c, P, st, ref, "integer-" + kind);
+    const bool conv = judge(c, P, st, ref, "integer-" + kind, x0.size() == I.n ? &x0 : nullptr);
     c.count(std::string("said:") + tname + "->" + status_name(st.m_status));
     if (what != truth::solvable)
     {
@@ -1991,7 +2114,12 @@ void case_integer(vf::ctx_t& c)
             vf::json_t j;
             j.kv("truth", tname).kv("fx_reported", st.m_fx).kv("iters", st.m_iters).kv("equalities", eqs);
             j.vec("x", st.m_x).kv("program", describe(P));
-            c.violation(std::string("C04|converged-on-") + tname + "|integer-" + kind, j);
+            if (x0.size() == I.n)
+            {
+                j.arr("user_x0", x0.data(), static_cast<size_t>(x0.size()));
+            }
+            const bool astronomic = st.m_x.size() > 0 && !(st.m_x.vector().cwiseAbs().maxCoeff() < 1e8);
+            c.violation(std::string("C04|converged-on-") + tname + "|integer-" + kind + (astronomic ? "|astronomic-x" : ""), j);
         }
         c.nontrivial(hash_prog(P));
     }
